@@ -1,4 +1,5 @@
 (* C03 — all lemmas: C03_ops (each operation of the account-table model, frame, invariants over histories),
    C03_refine (the abstract account map, the abstraction function, refinement step by step and over histories),
-   C03_loader (well-formed ids are ASCII, requests naming a malformed id, which records the loader puts into the index). *)
-From Verif Require Export Proofs.C03_ops Proofs.C03_refine Proofs.C03_loader.
+   C03_loader (well-formed ids are ASCII, requests naming a malformed id, which records the loader puts into the index),
+   C03_clock (account expiry for a last-login stamp on either side of the clock, the on-line table). *)
+From Verif Require Export Proofs.C03_ops Proofs.C03_refine Proofs.C03_loader Proofs.C03_clock.
